@@ -459,3 +459,21 @@ Definition run_world (args : list N) : list N :=
       exec_script (length script) st script
   | [] => []
   end.
+
+(* Engine 2 (C10): a script and its twin (bundle fields permuted, representation switched) run in
+   separate worlds; the harness additionally compares their final canonical states *)
+Definition run_twin (args : list N) : list N :=
+  match args with
+  | n :: r =>
+      let '(u, rest) := dec_universe (length r) n r in
+      match rest with
+      | la :: scripts =>
+          let st := {| e_u := u; e_ws := [{| ws_world := world_new; ws_state := 0 |}; {| ws_world := world_new; ws_state := 0 |}];
+                       e_handles := []; e_prep := [] |} in
+          let a := takeN la scripts in
+          let b := dropN la scripts in
+          exec_script (length a) st a ++ exec_script (length b) st b
+      | [] => []
+      end
+  | [] => []
+  end.
